@@ -16,6 +16,9 @@ import (
 
 // judgeC05 applies C05's oracle to the observations of one scenario.
 func judgeC05(c *StopCase, o *StopObs) (sig string, err error) {
+	if o.Panicked != "" {
+		return "C05:panic", fmt.Errorf("Stream did not return but panicked: %v", o.StreamErr)
+	}
 	if o.Stalled != "" {
 		return "C05:stream-stalls", fmt.Errorf("%s", o.Stalled)
 	}
@@ -127,6 +130,17 @@ func drawStop(rt *rapid.T, o gen.HistOpt, kinds []string) *StopCase {
 		c.SlowN = rapid.IntRange(1, 12).Draw(rt, "slow_n")
 	}
 	c.PrevOK = rapid.IntRange(0, 4).Draw(rt, "prev_ok") == 0
+	if c.PrevOK {
+		c.PrevCancel = rapid.Bool().Draw(rt, "prev_cancel")
+	}
+	if rapid.IntRange(0, 2).Draw(rt, "perturb") == 0 {
+		c.PerturbWho = rapid.IntRange(1, 3).Draw(rt, "perturb_who")
+		c.PerturbLevel = rapid.IntRange(1, 3).Draw(rt, "perturb_level")
+		c.PerturbMicros = rapid.SampledFrom([]int{200, 1000, 3000}).Draw(rt, "perturb_us")
+		if c.PerturbLevel == 3 {
+			c.PerturbMicros = 100
+		}
+	}
 	return c
 }
 
@@ -135,8 +149,14 @@ func stopClasses(c *StopCase, o *StopObs) []string {
 	if o.ReaderAtStop != "" {
 		cls = append(cls, "reader-at-stop/"+o.ReaderAtStop)
 	}
-	if c.PrevOK {
+	if c.PrevOK && !c.PrevCancel {
 		cls = append(cls, "after-successful-attempt")
+	}
+	if c.PrevOK && c.PrevCancel {
+		cls = append(cls, "after-cancelled-attempt")
+	}
+	if c.PerturbWho != 0 {
+		cls = append(cls, fmt.Sprintf("perturb/who=%d/level=%d", c.PerturbWho, c.PerturbLevel))
 	}
 	cls = append(cls, fmt.Sprintf("cause/%s/reader=%s/handler=%d", c.Fault.Kind, o.ReaderAtStop, c.Handler))
 	return cls
